@@ -309,6 +309,18 @@ compatible with the bound spec (else ValueError); if the partial modes agree the
 *trusted* and stored without validation, otherwise it is validated by the standard apply
 (with the F75 repair: a partial container is refused by a destination that requires a complete
 value).  `partialB` is `value.is_partial`. -/
+def unionTyped (env : Env) (p : Bool) (src : Spec) (v : Val) : List Spec → Option (R Val)
+  | [] => none
+  | c :: cs =>
+    match vt c with
+    | some ts =>
+      if instOf env v ts then
+        -- (a frozen candidate does not look at the value's spec: the standard route below)
+        if c.flags.frozen then none
+        else some (if !isCompatible env c src then .error .value else .ok v)
+      else unionTyped env p src v cs
+    | none => unionTyped env p src v cs
+
 def applyArg (env : Env) (dest : Spec) (p : Bool) (partialB : Val → Bool) : Arg → R Val
   | .plain v => apply env dest p v
   | .typed src sp v =>
@@ -316,7 +328,16 @@ def applyArg (env : Env) (dest : Spec) (p : Bool) (partialB : Val → Bool) : Ar
     else if !isCompatible env dest src then .error .value
     else if sp == p then .ok v
     else if !p && partialB v then .error .value
-    else apply env dest p v
+    else
+      -- the container has adopted the destination's partial mode; a non-union destination now
+      -- validates it in full, but a Union hands it to the candidate of its type, whose own
+      -- `custom_apply` finds the modes equal and trusts it again (value_specs.py 2755-2762)
+      match dest with
+      | .union cands _ =>
+        match unionTyped env p src v cands with
+        | some r => r
+        | none => apply env dest p v
+      | _ => apply env dest p v
 
 /-- `MaybePartial.is_partial` of a container value: some member is `MISSING_VALUE` (deep). -/
 partial def hasMissing : Val → Bool
